@@ -336,7 +336,8 @@ theorem pushAll_ok {sz : Nat} : ∀ (xs : List Nat) {l l' : RawList},
       refine ⟨by simp [f1, e1], by simp [f2, e2]; omega, by simp [f3, e3], by simp [f4, e4], ok2⟩
 
 theorem pushAll_error {sz : Nat} : ∀ (xs : List Nat) {l : RawList} {f : Fault},
-    pushAll sz l xs = .error f → RawOk sz l → f = .panic
+    pushAll sz l xs = .error f → RawOk sz l →
+    f = .panic ∧ ∃ k, k ≤ xs.length ∧ usizeMax < nextPow2 (l.len + k)
   | [], l, f, h, ok => by simp [pushAll] at h
   | v :: vs, l, f, h, ok => by
     unfold pushAll at h
@@ -345,9 +346,14 @@ theorem pushAll_error {sz : Nat} : ∀ (xs : List Nat) {l : RawList} {f : Fault}
       simp only [hp] at h
       injection h with h
       subst h
-      exact (rawPush_error hp ok).1
+      exact ⟨(rawPush_error hp ok).1, 1, by simp, (rawPush_error hp ok).2⟩
     | ok l1 =>
       simp only [hp] at h
-      exact pushAll_error vs h (rawPush_ok hp ok).2.2.2.2.2
+      have ⟨_, e2, _, _, _, ok1⟩ := rawPush_ok hp ok
+      have ⟨hf, k, hk1, hk2⟩ := pushAll_error vs h ok1
+      refine ⟨hf, k + 1, by simp; omega, ?_⟩
+      rw [e2] at hk2
+      have : l.len + (k + 1) = l.len + 1 + k := by omega
+      rw [this]; exact hk2
 
 end RotoV.ListM
